@@ -4,7 +4,8 @@
 r=$1; p=$2; shift 2
 src=/verif/seeded/preserving/$r-$p/patch.diff
 dir=/dev/shm/ref-$r-$p
-rm -rf $dir; git -C /repo worktree prune; git -C /repo worktree add -q --detach $dir HEAD || exit 2
+base=$(/venv/bin/python -c "import json; print(json.load(open('/verif/seeded/preserving/$r-$p/meta.json')).get('base_commit','HEAD'))" 2>/dev/null | tail -1)
+rm -rf $dir; git -C /repo worktree prune; git -C /repo worktree add -q --detach $dir ${base:-HEAD} || exit 2
 cd $dir; git apply $src || { echo "$r-$p: patch does not apply"; git -C /repo worktree remove --force $dir; exit 2; }
 t=$(PYTHONPATH=$dir /venv/bin/python -m pytest -q -p no:cacheprovider --no-cov 2>&1 | tail -1)
 echo "$r-$p: tests: $t | $(git diff --stat | tail -1)"
